@@ -139,6 +139,11 @@ FRAGMENTS = [
 
 #: fragments that make sense for any rank (run on 1-D, 2-D and 3-D inputs)
 FRAGMENTS_ANY = [
+    "idx = [1, 0]\nr = t[idx] if t.shape[0] > 1 else t",
+    "y = t.clone()\nidx = [0]\ny[idx] = 5\nr = y",
+    "idx = list(range(t.shape[0]))[::-1]\nr = t[idx]",
+    "tp = tuple([0] * t.dim())\nr = t[tp]",
+    "sh = t.shape\nr = torch.zeros(sh) + t[(0,) * len(sh)]",
     "pos = (0,) * t.dim()\nr = t[pos] + t[pos[:-1]].sum()",
     "y = t.clone()\npos = (0,) * (t.dim() - 1)\ny[pos + (1,)] = 7\nr = y",
     "y = torch.zeros((*t.shape, 2))\nimport itertools\nfor pos in itertools.product(*[range(s) for s in t.shape]):\n    for b in range(2):\n        y[pos + (b,)] = t[pos] * (b + 1)\nr = y",
